@@ -9,8 +9,7 @@ C08 (part 3): the geometric side conditions of containment and visibility prunin
   grid of edge `p` erode by at most `k·√3·p` and dilate by at least `k·p` (squared / per-coordinate
   forms, rational coordinates, unbounded grid), and the iteration counts computed by the source stay
   on the safe side of those bounds.
-* the retry loops: termination of the buffer loop for every conversion oracle, divergence of a loop
-  that keeps passing the same pitch.
+  (the retry loops are in `C08Loops.lean`, the list-level morphology in `C08Morph.lean`)
 -/
 namespace Scenic.Pruning
 
@@ -315,170 +314,13 @@ theorem dilate_count_sound {cfg : DilateCountCfg} (hcfg : cfg.Sound = true) (min
   push_cast
   nlinarith
 
-/-- **dilate_count_sound_partial** — the source divides by the *relative* pitch (`minBuffer / pitch`), not by
-    the voxel edge `target_pitch = pitch · max(extents)`.  This is only enough when the voxel edge is
-    at least the relative pitch, i.e. when the largest extent of the mesh is ≥ 1.  (Full statement:
-    the conclusion for every mesh; see `dilate_relative_pitch_underbuffers` for why it fails.) -/
-theorem dilate_count_sound_partial {cfg : DilateCountCfg} (hplus : 0 ≤ cfg.plus)
-    (minBuffer pitch targetPitch : Rat) (hb : 0 ≤ minBuffer) (hp : 0 < pitch) (hext : pitch ≤ targetPitch) :
-    minBuffer ≤ ((dilatePasses cfg minBuffer pitch targetPitch : Int) : Rat) * targetPitch := by
-  have hT : 0 < targetPitch := lt_of_lt_of_le hp hext
-  simp only [dilatePasses]
-  split
-  · have := dilate_count_sound (cfg := ⟨cfg.plus, true⟩) (by simp [DilateCountCfg.Sound, hplus]) minBuffer pitch
-      targetPitch hT
-    simpa [dilatePasses] using this
-  · have h1 : minBuffer / pitch ≤ ((minBuffer / pitch).ceil : Rat) := Rat.le_ceil
-    have h2 : minBuffer ≤ ((minBuffer / pitch).ceil : Rat) * pitch := by rwa [div_le_iff₀ hp] at h1
-    have h3 : (0 : Rat) ≤ (cfg.plus : Rat) := by exact_mod_cast hplus
-    have h4 : (0 : Rat) ≤ ((minBuffer / pitch).ceil : Rat) := by
-      have : (0 : Rat) ≤ minBuffer / pitch := div_nonneg hb (le_of_lt hp)
-      linarith
-    push_cast
-    nlinarith
-
-/-- witness: a view region of extent 0.4 (visibleDistance 0.2), relative pitch 0.15 (voxel edge 0.06) and an
-    object of radius 0.866: 7 passes dilate by only 0.42 < 0.866 -/
+/-- **regression witness for d16097f5** (the divisor used to be the *relative* pitch): a view region of extent 0.4
+    (visibleDistance 0.2), relative pitch 0.15 (voxel edge 0.06) and an object of radius 0.866: the old count makes
+    7 passes, which dilate by only 0.42 < 0.866; the count with the voxel edge as divisor makes 16 ≥ 0.866/0.06 -/
 theorem dilate_relative_pitch_underbuffers :
     let cfg : DilateCountCfg := ⟨1, false⟩
-    dilatePasses cfg (433/500) (3/20) (3/50) = 7 ∧ ((7 : Rat) * (3/50) < 433/500) := by
+    dilatePasses cfg (433/500) (3/20) (3/50) = 7 ∧ ((7 : Rat) * (3/50) < 433/500) ∧
+      dilatePasses ⟨1, true⟩ (433/500) (3/20) (3/50) = 16 := by
   decide +kernel
-
-/-! ### retry loops -/
-
-/-- the pitch handed to the callee in one iteration -/
-def usedPitch (cfg : RetryCfg) (p0 cur : Rat) : Rat := if cfg.passesCurrentPitch then cur else p0
-
-/-- the loop's exit test -/
-def exits (cfg : RetryCfg) (conv : Rat → Bool) (p0 cur : Rat) : Bool :=
-  (cfg.stopsAtMaxPitch && decide (usedPitch cfg p0 cur ≥ 1)) || conv (usedPitch cfg p0 cur)
-
-theorem retryLoop_succ (cfg : RetryCfg) (conv : Rat → Bool) (p0 : Rat) (fuel : Nat) (cur : Rat) :
-    retryLoop cfg conv p0 (fuel + 1) cur =
-      if exits cfg conv p0 cur then some 1
-      else (retryLoop cfg conv p0 fuel (nextPitch cur)).map (· + 1) := by
-  rw [retryLoop]; rfl
-
-theorem retryLoop_terminates_aux (cfg : RetryCfg) (hc : cfg.passesCurrentPitch = true)
-    (hs : cfg.stopsAtMaxPitch = true) (conv : Rat → Bool) (p0 : Rat) :
-    ∀ (n : Nat) (cur : Rat), 1 ≤ cur * 2 ^ n → (retryLoop cfg conv p0 (n + 1) cur).isSome = true := by
-  intro n
-  induction n with
-  | zero =>
-    intro cur h
-    simp only [pow_zero, mul_one] at h
-    rw [retryLoop_succ]
-    have : exits cfg conv p0 cur = true := by simp [exits, usedPitch, hc, hs, h]
-    rw [if_pos this]; rfl
-  | succ n ih =>
-    intro cur h
-    rw [retryLoop_succ]
-    by_cases hb : exits cfg conv p0 cur = true
-    · rw [if_pos hb]; rfl
-    · rw [if_neg hb]
-      have : 1 ≤ nextPitch cur * 2 ^ n := by
-        unfold nextPitch
-        split
-        · rw [pow_succ] at h; linarith
-        · have : (1 : Rat) ≤ 2 ^ n := one_le_pow₀ (by norm_num)
-          linarith
-      have := ih (nextPitch cur) this
-      simpa using this
-
-theorem retryLoop_le_fuel (cfg : RetryCfg) (conv : Rat → Bool) (p0 : Rat) :
-    ∀ (f : Nat) (cur : Rat) (m : Nat), retryLoop cfg conv p0 f cur = some m → m ≤ f := by
-  intro f
-  induction f with
-  | zero => intro cur m h; simp [retryLoop] at h
-  | succ f ih =>
-    intro cur m h
-    rw [retryLoop_succ] at h
-    by_cases hb : exits cfg conv p0 cur = true
-    · rw [if_pos hb] at h; simp only [Option.some.injEq] at h; omega
-    · rw [if_neg hb] at h
-      simp only [Option.map_eq_some_iff] at h
-      obtain ⟨a, ha, rfl⟩ := h
-      have := ih _ a ha
-      omega
-
-/-- **retry_loop_terminates**: a loop that passes the doubled pitch on and whose callee cannot fail at
-    pitch 1 (the `BoxRegion` fast path of `_bufferOverapproximate`) finishes for *every* behaviour of the
-    voxel→mesh conversion, within `n + 1` iterations when `p0·2ⁿ ≥ 1`. -/
-theorem retry_loop_terminates (cfg : RetryCfg) (hc : cfg.passesCurrentPitch = true)
-    (hs : cfg.stopsAtMaxPitch = true) (conv : Rat → Bool) (p0 : Rat) (n : Nat) (h : 1 ≤ p0 * 2 ^ n) :
-    ∃ m, m ≤ n + 1 ∧ retryLoop cfg conv p0 (n + 1) p0 = some m := by
-  have := retryLoop_terminates_aux cfg hc hs conv p0 n p0 h
-  obtain ⟨m, hm⟩ := Option.isSome_iff_exists.mp this
-  exact ⟨m, retryLoop_le_fuel cfg conv p0 _ _ _ hm, hm⟩
-
-/-- for every positive starting pitch some fuel suffices -/
-theorem retry_loop_terminates_any (cfg : RetryCfg) (hc : cfg.passesCurrentPitch = true)
-    (hs : cfg.stopsAtMaxPitch = true) (conv : Rat → Bool) (p0 : Rat) (hp : 0 < p0) :
-    ∃ fuel m, retryLoop cfg conv p0 fuel p0 = some m := by
-  -- choose n with p0 * 2^n ≥ 1
-  obtain ⟨n, hn⟩ : ∃ n : Nat, 1 ≤ p0 * 2 ^ n := by
-    refine ⟨(1 / p0).ceil.toNat, ?_⟩
-    have h1 : 1 / p0 ≤ ((1 / p0).ceil : Rat) := Rat.le_ceil
-    have hpos : 0 ≤ (1 / p0).ceil := by
-      have : (0 : Rat) < 1 / p0 := by positivity
-      have : ((0 : Int) : Rat) < ((1 / p0).ceil : Rat) := by push_cast; linarith
-      have : (0 : Int) < (1 / p0).ceil := by exact_mod_cast this
-      omega
-    have h2 : (((1 / p0).ceil.toNat : Nat) : Rat) = ((1 / p0).ceil : Rat) := by
-      have : (((1 / p0).ceil.toNat : Nat) : Int) = (1 / p0).ceil := Int.toNat_of_nonneg hpos
-      exact_mod_cast congrArg (fun z : Int => (z : Rat)) this
-    have h3 : (((1 / p0).ceil.toNat : Nat) : Rat) ≤ 2 ^ (1 / p0).ceil.toNat := by
-      have : (1 / p0).ceil.toNat < 2 ^ (1 / p0).ceil.toNat := Nat.lt_two_pow_self
-      exact_mod_cast le_of_lt this
-    have h4 : 1 / p0 ≤ 2 ^ (1 / p0).ceil.toNat := by linarith
-    rw [div_le_iff₀ hp] at h4
-    linarith
-  obtain ⟨m, _, hm⟩ := retry_loop_terminates cfg hc hs conv p0 n hn
-  exact ⟨n + 1, m, hm⟩
-
-/-- **retry_loop_diverges** (row 17 of the defect table): a loop that keeps calling with the constant
-    starting pitch, or that has no way out at pitch 1, never finishes once the conversion fails at the
-    pitches it tries — for every amount of fuel. -/
-theorem retry_loop_diverges (cfg : RetryCfg) (conv : Rat → Bool) (p0 : Rat)
-    (hcfg : cfg.stopsAtMaxPitch = false ∨ (cfg.passesCurrentPitch = false ∧ p0 < 1))
-    (hconv : ∀ p, conv p = false) : ∀ (fuel : Nat) (cur : Rat), retryLoop cfg conv p0 fuel cur = none := by
-  intro fuel
-  induction fuel with
-  | zero => intro cur; rfl
-  | succ f ih =>
-    intro cur
-    rw [retryLoop_succ]
-    have : exits cfg conv p0 cur = false := by
-      unfold exits
-      rw [hconv, Bool.or_false]
-      rcases hcfg with h | ⟨h1, h2⟩
-      · simp [h]
-      · simp only [usedPitch, h1, Bool.false_eq_true, if_false, Bool.and_eq_false_iff,
-          decide_eq_false_iff_not, not_le]
-        exact Or.inr h2
-    rw [this]
-    simp only [Bool.false_eq_true, if_false, ih, Option.map_none]
-
-/-- with a constant pitch the loop finishes iff the very first conversion succeeds -/
-theorem retry_loop_constant_iff (cfg : RetryCfg) (hc : cfg.passesCurrentPitch = false) (conv : Rat → Bool)
-    (p0 : Rat) (hp : p0 < 1) (fuel : Nat) (cur : Rat) :
-    (retryLoop cfg conv p0 (fuel + 1) cur).isSome = conv p0 := by
-  have hex : ∀ c, exits cfg conv p0 c = conv p0 := by
-    intro c
-    simp only [exits, usedPitch, hc, Bool.false_eq_true, if_false]
-    have : decide (p0 ≥ 1) = false := by simp; exact hp
-    rw [this, Bool.and_false, Bool.false_or]
-  cases hconv : conv p0 with
-  | true => rw [retryLoop_succ, hex, hconv]; rfl
-  | false =>
-    have : ∀ (f : Nat) (c : Rat), retryLoop cfg conv p0 f c = none := by
-      intro f
-      induction f with
-      | zero => intro c; rfl
-      | succ f ih =>
-        intro c
-        rw [retryLoop_succ, hex, hconv]
-        simp only [Bool.false_eq_true, if_false, ih, Option.map_none]
-    rw [this]; rfl
 
 end Scenic.Pruning
